@@ -417,7 +417,7 @@ def fam_restart(tier, outdir):
     if tier == "thorough":
         consts.update({"MaxCalls": 6, "MaxTime": 4})
     cfg = os.path.join(outdir, "MC_Restart.cfg")
-    write_cfg(cfg, "Spec", consts, ["TypeOK", "LifeChild"], export_stride=1)
+    write_cfg(cfg, "Spec", consts, ["TypeOK", "LifeChild"], export_stride=1, view="viewR")
     return run_tlc_export("restart", "MC_Restart", cfg, outdir, tier, asan_stride=8)
 
 
